@@ -521,7 +521,7 @@ class Goebner:
             factor1, factor2 = factors
 
             # keep common factors in the middle, move uncommon ones to the left if possible
-            for both in common:
+            for both in sorted(common, key=default_sort_key):
                 if linear1[both] * factor1 != linear2[both] * factor2:
                     if both.free_symbols.intersection(self._sym2agg.keys()):
                         return None  # nocoverage
